@@ -301,6 +301,40 @@ def hrun (pin warm : Bool) : Heap → List HOp → List (Option Nat)
   | _, [] => []
   | h, op :: rest => let r := hstep pin warm h op; r.2 :: hrun pin warm r.1 rest
 
+/-- the two-level arrangement of `decompile` / `make_query`: the AST cache in front, the caches keyed by `id(code)` behind it.
+    `byEquality = false` is the code as it is: the AST cache is keyed by the id and EVERY use pins the object (`get_codeobject_id`).
+    `byEquality = true`: the AST cache is looked up by the code object itself (equal content hits) and only a MISS keeps the object
+    alive (as the key of the new entry) — a second, equal but distinct code object is then used unpinned, while its `id()` still keys
+    the extractors / translator / SQL / result caches. -/
+structure Heap2 where
+  live : List CodeObj
+  pinned : List Nat
+  /-- contents the AST cache has an entry for -/
+  astSeen : List Nat
+  /-- the caches keyed by `id(code)`: address ↦ the content the entry was computed from -/
+  byId : Table Nat Nat
+  deriving Repr
+
+def Heap2.init : Heap2 := ⟨[], [], [], []⟩
+
+def hstep2 (byEquality warm : Bool) (h : Heap2) : HOp → Heap2 × Option Nat
+  | .alloc o => match h.live.find? (fun x => x.addr == o.addr) with
+      | some _ => (h, none)
+      | none => ({ h with live := o :: h.live }, none)
+  | .drop a => if a ∈ h.pinned then (h, none) else ({ h with live := h.live.filter (fun o => o.addr != a) }, none)
+  | .use a => match h.live.find? (fun x => x.addr == a) with
+      | none => (h, none)
+      | some o =>
+        let astHit := byEquality && decide (o.content ∈ h.astSeen)
+        let h1 := if astHit then h else { h with pinned := a :: h.pinned, astSeen := o.content :: h.astSeen }
+        match (if warm then tget a h1.byId else none) with
+        | some v => (h1, some v)
+        | none => ({ h1 with byId := tset a o.content h1.byId }, some o.content)
+
+def hrun2 (byEquality warm : Bool) : Heap2 → List HOp → List (Option Nat)
+  | _, [] => []
+  | h, op :: rest => let r := hstep2 byEquality warm h op; r.2 :: hrun2 byEquality warm r.1 rest
+
 /-- a translator that bakes in the values of the parameters `pins key ++ hidden key` but RECORDS only `pins key` in
     `fixed_param_values` (a bound pinned inside a nested generator recorded on the sub-translator instead of the root) -/
 def trMemoHidden (pins hidden : List Int → List Int) (norm : Option Int → Option Int) :
